@@ -67,7 +67,11 @@ Lemma start_request_stream_spec (s s' : st) c :
        /\ c = [CGetConn; CSend Server (MHeaders false)])
       \/ (c_ok cfg = false /\ client_state s' = Errored /\ server_state s' = Errored
           /\ filter (fun x => match x with CSend Server _ => true | _ => false end) c = []
-          /\ ~ In (CSend Client (MErr ReqTooLarge)) c /\ ~ In (CSend Client (MErr RespTooLarge)) c)).
+          /\ ~ In (CSend Client (MErr ReqTooLarge)) c /\ ~ In (CSend Client (MErr RespTooLarge)) c
+          /\ filter (fun x => match x with
+                              | CSend Client (MHeaders _) | CSend Client (MData _) | CSend Client MEom => true
+                              | _ => false
+                              end) c = [])).
 Proof.
   unfold HttpBody.start_request_stream, make_server_connection, handle_protocol_error_connect.
   destruct (c_ok cfg); intros H.
@@ -288,6 +292,12 @@ Lemma data_to_map_same p ds : data_to p (map (fun c => CSend p (MData c)) ds) = 
 Proof. induction ds; simpl; auto. destruct p; rewrite IHds; auto. Qed.
 Lemma data_to_map_other p q ds : p <> q -> data_to p (map (fun c => CSend q (MData c)) ds) = [].
 Proof. intros H. induction ds; simpl; auto. destruct p, q; auto; congruence. Qed.
+Lemma no_server_send_no_content c :
+  filter (fun x => match x with CSend Server _ => true | _ => false end) c = [] -> server_content c = [].
+Proof.
+  induction c as [|x r IH]; cbn; auto.
+  destruct x as [h| |p m|]; cbn; auto. destruct p; cbn; auto. intros; discriminate.
+Qed.
 Lemma server_content_app a b : server_content (a ++ b) = server_content a ++ server_content b.
 Proof. apply filter_app. Qed.
 Lemma client_content_app a b : client_content (a ++ b) = client_content a ++ client_content b.
